@@ -32,6 +32,44 @@ def transact (w : World α) (b0 : Broker α) (t : Trade α) : Broker α :=
     basis := upd b.basis k (b.basis k + t.qty * px) }
   mark1 w k b1
 
+/-- F11: `marking_to_market` skipped a contract without a liquidation price even when nothing was held, leaving
+    the settlement of a closing trade in the margin account (where a flat position's valuation ignores it) -/
+def mark1F11 (w : World α) (k : Key) (b : Broker α) : Broker α :=
+  let s := w.spec k
+  if s.mr = 0 then b else
+  match liqPrice b k (b.pos k), b.lastMark k with
+  | some p, some lp =>
+      let m1 := b.margin k + b.pos k * s.mult * (p - lp)
+      let target := p * absv (b.pos k) * s.mult * s.mr
+      let excess := m1 - target
+      { b with margin := upd b.margin k (m1 - excess)
+               cash := b.cash + excess
+               lastMark := upd b.lastMark k (some p) }
+  | _, _ => b
+
+/-- the current `transact` with the pre-F11 marking -/
+def transactF11 (w : World α) (b0 : Broker α) (t : Trade α) : Broker α :=
+  let k := t.key
+  let s := w.spec k
+  let b := mark1F11 w k b0
+  let px := t.acq
+  let qNew := b.pos k + t.qty
+  let mexp := px * absv qNew * s.mult * s.mr
+  let mdiff := mexp - b.margin k
+  let fee := t.commission w
+  let settle : α := match b.lastMark k with
+    | some lp => if s.mr = 0 then 0 else t.qty * s.mult * (lp - px)
+    | none => 0
+  let b1 : Broker α := { b with
+    cash := b.cash - fee - t.costCash w - mdiff
+    margin := upd b.margin k (b.margin k + mdiff + settle)
+    pos := upd b.pos k qNew
+    lastMark := upd b.lastMark k (match b.lastMark k with | some lp => some lp | none => some px)
+    held := if k ∈ b.held then b.held else b.held ++ [k]
+    comm := b.comm + fee
+    basis := upd b.basis k (b.basis k + t.qty * px) }
+  mark1F11 w k b1
+
 /-- F2: the liquidation value of a fully-paid contract omitted the multiplier -/
 def valueOfLiq (w : World α) (b : Broker α) (k : Key) : Option α :=
   let q := b.pos k
